@@ -32,6 +32,22 @@ chk("C13", "pushsim",
     "deterministic simulation (seeded schedule + fault injection: drop/dup/delay/retry/crash-restart) with reference-model oracle; tape minimisation and replay",
     "DESIGN.md §5, §7 C13")
 
+SIMFED_NOTE = "Trusted: the reference models of DESIGN.md Appendix A (refmodel crate, no ruma code), ed25519-dalek for Ed25519 itself, and the stub homeserver glue; inputs outside the spec-decidable envelope (DESIGN §4.5) are generated but not judged. Known findings (known_findings.json) are stepped over, everything else is still judged."
+SIMFED_TECH = "deterministic simulation of a multi-server federation (seeded discrete-event scheduler; faults: drop/dup/delay/reorder, partition/heal, stall, crash/restart with lost/flipped disk writes, clock skew/freeze/jump, respell/corrupt/tamper/relay-redact, Byzantine servers, per-run hash seeds) with reference-model oracles; tape minimisation and exact replay"
+def fed(pid, what):
+    chk(pid, "simfed", what + " Seeded sampling of histories and fault sequences, not proof.", SIMFED_NOTE, SIMFED_TECH, f"DESIGN.md §4, §7 {pid}")
+
+fed("C01", "Every PDU text a Ruma node ingests (respelled by the transport: key order, whitespace, escape spellings, duplicate keys; produced by Ref/Byz peers) must parse to the value the rj model parses and re-serialise to rj's canonical bytes; parse-back equality; value-level probes incl. non-representable numbers that must be refused. The key-order/spelling clause is decided by the respell fault; breadth of values is workload sampling.")
+fed("C02", "Signing flows between servers and an identity server (1-3 signers in tape order, real and model signers mixed, cross-verification), tamper classes on signed objects (content / signature bit / key bit / key id / unsigned only / respelling / extra entity) judged against rsig in both directions, and snapshot comparison after every failing sign_json.")
+fed("C03", "Every PDU creation, countersigning and receipt in room versions 1-11 is judged against rsig+rredact+rsigners: hash_and_sign_event bytes, verify_event result class (All / Signatures / error) for clean, respelled, tampered-by-class, relay-redacted and reloaded-after-crash copies, required signers incl. v1-2 foreign event IDs and restricted-join countersignatures.")
+fed("C04", "Redaction at every place a node redacts (inside sign/verify/hash, on hash mismatch, relay-redact chains of 1-3 hops, entry point chosen by the tape) plus observer probes over every special event type with specified and unspecified keys, compared with the rredact table for versions 1-11 (obtained through RoomVersionId); entry-point agreement, idempotence, redacted_because. The (version,type,key) table coverage itself is workload sampling.")
+fed("C05", "Every server derives each event's ID independently on receipt, after restart and from relay-redacted copies; IDs, content hashes and reference hashes are compared with rsha/rb64/rredact; tamper classes decide which changes must move the hash; boundary-size events are sized with the reference encoder to 65535±{0,1,2} bytes and must be refused exactly above the limit.")
+fed("C06", "Every resolve call of a Ruma node is repeated with permuted state-set and auth-chain-set order under fresh per-map hash keys (getrandom seam), on cooperative threads with their own hash seeds interleaved at fetch_event granularity, with single/identical-set identity probes; every event's accept/reject verdict and state-before map are compared across all nodes however they learned the DAG (delivery order, partitions, restarts recomputing from disk). Oracle is equality, no reference model.")
+fed("C07", "Every resolve call a Ruma node makes while processing a federation history with partitions, delays, frozen/skewed clocks and Byzantine stale-auth events (plus tape-chosen subset resolutions) is compared with the literal rsr2 model; the exposed lexicographical_topological_sort is compared with a reference Kahn sort on arising auth sub-DAGs with tape-chosen tie-prone keys.")
+fed("C08", "Every auth_check a Ruma node performs on history-reached states, K Byzantine candidate events per probed state (with synthetic membership overrides widening the sender×target product), and every iterative-auth step inside resolution are compared accept/reject with the rauth model for room versions 1-11; evidence reports the (version, kind, verdict, rule) cell histogram. Samples the abstract product space; does not enumerate it.")
+fed("C09", "auth_types_for_event is compared with rsel as sets on every created or probed event (all memberships, third-party-invite and restricted-join contents, malformed contents); recorded state reads of auth_check must lie inside the selection; re-running auth_check after removing/replacing/adding state entries outside the selection must not change the verdict.")
+fed("C20", "On history-reached power-levels events (fields absent, string levels before v10, users around thresholds) each helper (ban/kick/unban/invite a given user, send message/state type, room notification, effective level) is compared with the real auth_check verdict on the minimal corresponding event from a joined actor (and the real push condition / state-res level for the last two); room versions 3-11.")
+
 ALL = [f"C{n:02d}" for n in range(1, 21)]
 def main():
     man = {
